@@ -394,7 +394,7 @@ func TestC13(t *testing.T) {
 	ckR := hx.Check[listCase]{Name: "synthetic_list_random", Fn: checkList}
 	fns := listFns()
 	hx.Rapid(r, t, ckR, r.N(1500, 20000), func(rt *rapid.T) listCase {
-		c := listCase{Fn: rapid.SampledFrom(fns).Draw(rt, "fn"), Arity: rapid.IntRange(0, 24).Draw(rt, "arity"), Empty: -1}
+		c := listCase{Fn: rapid.SampledFrom(fns).Draw(rt, "fn"), Arity: rapid.SampledFrom([]int{0, 1, 2, 3, 4, 5, 6, 7, 8, 9, 10, 12, 15, 16, 17, 24, 31}).Draw(rt, "arity"), Empty: -1}
 		if c.Fn == "Custom" {
 			c.Opts = &recipe.Opts{
 				Open:      recipe.Text(rapid.SampledFrom([]string{"", "(", "<", "{", "x "}).Draw(rt, "open")),
